@@ -287,6 +287,7 @@ func (w *docWriter) ubObjectBody(v Val, st UBStyle, depth int) {
 }
 
 func (w *docWriter) ubVal(v Val, st UBStyle, depth int) {
+	beat()
 	s := len(w.b)
 	var m byte
 	switch v.K {
